@@ -243,3 +243,12 @@ pub fn generate(seed: u64, thorough: bool, emit: &mut dyn FnMut(String)) {
         emit(format!("eval {} {} {}", i % 3, req_simple(&p), rbits(x)));
     }
 }
+
+/// the common univariate sub-language of both parsers: ASCII variable letter only
+pub fn gen_poly_text_ascii(rng: &mut Rng) -> (String, String) {
+    let var = *rng.pick(&['x', 'y', 't', 'e', 'Q']);
+    let n = 1 + rng.below(6) as usize;
+    let terms: Vec<GenTerm> = (0..n).map(|_| gen_term(rng, var, 9)).collect();
+    let spacing = *rng.pick(&[0u64, 3, 7]);
+    (render(rng, &terms, spacing), intended(&terms))
+}
